@@ -109,6 +109,36 @@ example : (Pat.mk none true [.lit [97], .param [105, 100]]).unapplyUri none [47,
     (Pat.mk none true [.lit [97], .param [105, 100]]).unapplyUri none [47, 97, 47, 37, 50, 48] =
       some [([105, 100], [32])] := by decide
 
+/-! ## Every parameter gets its own binding -/
+
+/-- Full statement: a successful match of an accepted pattern yields one binding per parameter.
+**False of the current code** (F12c): see `C18_one_binding_per_param_fails`. -/
+def C18_one_binding_per_param : Prop :=
+  ∀ (p : Pat) (sch : Option Bytes) (path : Bytes) (r : KV), p.structOk = true →
+    p.unapplyUri sch path = some r → r.length = p.params.length
+
+/-- F12c: `/:id/:%69d` is accepted (`parse` compares the raw names) but `unapply` keys the result by the decoded
+names, so `/a/b` yields the single binding `id = "b"`; the value of the first parameter is lost. -/
+theorem C18_one_binding_per_param_fails : ¬ C18_one_binding_per_param := by
+  intro h
+  have := h ⟨none, true, [.param [105, 100], .param [37, 54, 57, 100]]⟩ none [47, 97, 47, 98] [([105, 100], [98])]
+    (by decide) (by decide)
+  exact absurd this (by decide)
+
+example : (parsePattern [47, 58, 105, 100, 47, 58, 37, 54, 57, 100]).toOption =
+    some ⟨none, true, [.param [105, 100], .param [37, 54, 57, 100]]⟩ := by decide
+
+/-- What holds today: one binding per parameter when the *decoded* names are pairwise different (in particular
+when no name contains a percent escape). -/
+theorem C18_one_binding_per_param_partial (p : Pat) (sch : Option Bytes) (path : Bytes) (r : KV)
+    (hnd : nodupB (p.params.map decodeLossy) = true) (h : p.unapplyUri sch path = some r) :
+    r.length = p.params.length := by
+  obtain ⟨parts, hp, _⟩ := unapplyUri_parts h
+  have := unapplyParts_length p.segs parts [] r hp (nodupB_nodup _ hnd) (by simp)
+  simpa [Pat.params, segParams] using this
+
+example : nodupB (exPat.params.map decodeLossy) = true := by decide
+
 /-! ## The ambiguity check is complete -/
 
 def Pat.litsNonempty (p : Pat) : Bool := p.segs.all Seg.litNonempty     -- guaranteed by `RoutePattern::parse`
